@@ -68,6 +68,11 @@ def merge_corpus(tier):
     docs.append(("m", (("a", ("m", (("c", 3), ("a", 9)))),)))
     docs.append(("s", ("x", "y")))
     docs.append(("s", ("y", "z")))
+    # scalars of different types that Python calls equal, at equal keys
+    docs.append(("m", (("a", 1), ("b", 0), ("c", 2))))
+    docs.append(("m", (("a", True), ("b", False), ("c", 2.0))))
+    docs.append(("m", (("a", ("m", (("a", 0), ("b", 1.0)))),)))
+    docs.append(("m", (("a", ("m", (("a", False), ("b", 1)))),)))
     # keys with capitals (rule paths are case-sensitive)
     docs.append(("m", (("A", ("l", (1, 2))), ("a", ("l", (1, 2))))))
     docs.append(("m", (("A", ("l", (2, 3))), ("a", ("l", (2, 3))))))
